@@ -388,7 +388,9 @@ Definition seal13 (c : cipher) (key iv : bytes) (seq : N) (content : bytes) (cty
   let inner := content ++ ctype :: zeros pad in
   let hdr := aad13 (length inner + 16) in
   hdr ++ aead_seal c key (nonce13 iv seq) hdr inner.
-Fixpoint strip_zeros_rev (r : bytes) : bytes := match r with 0%N :: t => strip_zeros_rev t | _ => r end.
+(* "the receiving implementation scans the field from the end toward the beginning until it finds a non-zero octet" *)
+Definition strip_trailing_zeros (l : bytes) : bytes :=
+  fold_right (fun b acc => match acc with [] => if (b =? 0)%N then [] else [b] | _ => b :: acc end) [] l.
 (* (content, content type) of a protected record; None if the header is not 17 03 03 len, the AEAD check fails
    or the inner plaintext has no non-zero byte *)
 Definition open13 (c : cipher) (key iv : bytes) (seq : N) (record : bytes) : option (bytes * N) :=
@@ -396,9 +398,9 @@ Definition open13 (c : cipher) (key iv : bytes) (seq : N) (record : bytes) : opt
   if negb (bytes_eqb (firstn 5 record) (aad13 (length body))) then None else
   match aead_open c key (nonce13 iv seq) (firstn 5 record) body with
   | None => None
-  | Some inner => match strip_zeros_rev (rev inner) with
+  | Some inner => match strip_trailing_zeros inner with
                   | [] => None
-                  | t :: r => Some (rev r, t)
+                  | l => Some (removelast l, last l 0%N)
                   end
   end.
 Definition body_len13 (n pad : nat) : nat := n + 1 + pad + 16.
@@ -461,5 +463,7 @@ Proof. vm_compute. reflexivity. Qed.
 Example hrr_random_is_the_hash : sha256_spec (str "HelloRetryRequest") = hrr_random.
 Proof. vm_compute. reflexivity. Qed.
 (* RFC 8017 9.2: the DigestInfo of a SHA-256 digest is 51 bytes, 0x30 0x31 .. 0x04 0x20 || H *)
+Example strip_zeros_example : strip_trailing_zeros [1; 0; 2; 23; 0; 0]%N = [1; 0; 2; 23]%N /\ strip_trailing_zeros [0; 0]%N = [].
+Proof. split; reflexivity. Qed.
 Example digest_info_sha256_len : length (digest_info DI_SHA256 (sha256_spec [])) = 51.
 Proof. vm_compute. reflexivity. Qed.
